@@ -100,7 +100,7 @@ KNOWN_CASES = [
 def run(ctx, rep):
     rng = ctx.rng()
     hist = []
-    for i in range(ctx.n(700, 30000)):
+    for i in range(ctx.n(700, 10000)):
         hist.append(gen_history(rng, i, rng.random() < 0.5, rng.choice(["module", "module", "proc", "func"])))
     parts = list(common.chunks(hist, max(1, len(hist) // (common.NCPU * 2))))
     for part, res in zip(parts, common.pmap(lambda p: errs.errors_batch(ctx, [h["src"] for h in p]), parts)):
